@@ -169,7 +169,10 @@ Walk(e, i, st) ==
          ELSE
               LET R    == Resolutions(st.pd, st.mixed)
                   good == {pl \in R : FinaliseVerdict(e, st.fs, pl, s) = "ok"}
-                  pl0  == IF good # {} THEN CHOOSE pl \in good : TRUE ELSE CHOOSE pl \in R : TRUE
+                  want == IF s.bad # <<>> THEN 0 ELSE Len(s.crashes) + 1
+                  best == {pl \in good : ExactCount(e, st.fs, pl, s) = want}      \* among the admitted readings, one that is also exact
+                  pl0  == IF best # {} THEN CHOOSE pl \in best : TRUE
+                          ELSE IF good # {} THEN CHOOSE pl \in good : TRUE ELSE CHOOSE pl \in R : TRUE
                   ks   == Kinds(st.fs, pl0, e.K)
                   st1  == [st EXCEPT !.facts = [facts0 EXCEPT
                               !.finalised = IF s.halt < 0 /\ s.bad = <<>> THEN @ + 1 ELSE @,
